@@ -125,6 +125,9 @@ class SymFlow:
                 # a store through a reference to a whole local updates that local
                 if base[0] == "ref" and base[1][0] == "init":
                     env[base[1][1]] = val
+                elif base[0] == "init":
+                    # a store through a reference parameter: remembered as the pointee's current value
+                    env[("*", base[1])] = val
                 else:
                     self.clobber(env, base, b, i)
             else:
@@ -168,6 +171,7 @@ class SymFlow:
         (then only that edge is followed).  Returns (entry env by block, arrival env by stop block, edges taken)."""
         entry = {start: dict(init_env or {})}
         arrived = {}
+        edge_env = {}   # (pred, succ) -> environment along that edge: the entry of a block is the join over its edges
         work = [start]
         edges = set()
         n_iter = 0
@@ -184,21 +188,27 @@ class SymFlow:
                 v = decide(self.operand(env, t[1]), b)
                 if v is not None:
                     nxt = [next((tgt for val, tgt in t[2] if val == v), t[3])]
+            # edges no longer taken from b (a decision changed) are dropped
+            for (p_, s_) in [k for k in edge_env if k[0] == b and k[1] not in nxt]:
+                del edge_env[(p_, s_)]
             for s in nxt:
                 if self.fn["blocks"][s].get("cleanup"):
                     continue
                 edges.add((b, s))
+                edge_env[(b, s)] = env
                 tgt = arrived if s in stop else entry
-                if s not in tgt:
-                    tgt[s] = dict(env)
+                ins = [e_ for (p_, s_), e_ in edge_env.items() if s_ == s]
+                if s == start and s not in stop:
+                    ins = ins + [dict(init_env or {})]
+                new = dict(ins[0])
+                for other in ins[1:]:
+                    j = self.join(new, other, s)
+                    if j is not None:
+                        new = j
+                if tgt.get(s) != new:
+                    tgt[s] = new
                     if s not in stop:
                         work.append(s)
-                else:
-                    new = self.join(tgt[s], env, s)
-                    if new is not None:
-                        tgt[s] = new
-                        if s not in stop:
-                            work.append(s)
         return entry, arrived, edges
 
     def join(self, old, env, blk):
